@@ -44,7 +44,9 @@ class Layout:
         if r < 0.75:
             return rng.choice(["\n", "\n  ", "\r\n", "\n\t\t", "\n\n"])
         if r < 0.85:
-            return rng.choice([" /* c */ ", "/**/", " /* é中文 */ ", "/* a\n b */", " /* [x] { */ "])
+            return rng.choice([" /* c */ ", "/**/", " /* é中文 */ ", "/* a\n b */", " /* [x] { */ ", "/** d **/", "/***/", "/****/", " /* x **/ ",
+                               "/* * / */", "/* // */", "/*/ */", "/* ** * */", "/**** x ****/", "/* \"s */", "/* a *//* b */",
+                               "/* \n * x\n **/", "/* struct Hidden {} */", "/*\r\n*/"])
         if r < 0.93:
             return rng.choice([" // note\n", "// é “quoted” 中\n", " //// four slashes\n", "//\n  "])
         return " " if need_space else ""
